@@ -524,7 +524,7 @@ func patchChangesOneField(c Case) error {
 
 func TestProp(t *testing.T) {
 	r := evid.Start(t, "C19", "exploration")
-	for _, n := range []string{"layout", "attr", "attr-utf16", "large", "enum", "flip", "e2e", "e2e-gen"} {
+	for _, n := range []string{"layout", "attr", "attr-utf16", "large", "enum", "flip", "e2e", "e2e-gen", "slack"} {
 		evid.Reg(r, n, Eval)
 	}
 	if r.Replay() {
@@ -693,11 +693,86 @@ func TestProp(t *testing.T) {
 	enumStructure(r, run)
 	r.Exhaustive("enum: bases x checksum-type pairs x {remove, duplicate} of every buffer x RODC combinations x declared types x signature substitutions")
 
+	// ---- 3b. signature buffers that are longer than their fields ------------------------------
+	slackChecks(r, record)
+
 	// ---- 4. exhaustive single-bit flips -----------------------------------------------------
 	enumFlips(r, record)
 
 	// ---- 5. end to end through VerifyAPREQ --------------------------------------------------
 	e2eChecks(r, record)
+}
+
+// slackChecks: signature buffers whose cbBufferSize is larger than type + Signature (+ RODCIdentifier).
+func slackChecks(r *evid.Run, record recordFn) {
+	r.Rule("slack (enumerated + rapid): a valid presentation whose server and / or KDC signature buffer carries 1-8 further octets behind its last field (with and without RODC identifier; one stray octet; rounded up to 8), correctly signed over everything but the two Signature fields. The verdict on the PAC itself is free (nothing says such a buffer must be refused); if it is accepted its attributes must be the encoded ones and flipping any single bit of the further octets, which are signed data, must make it fail")
+	id := uint16(0x1f2e)
+	type job struct {
+		base     string
+		alg      int32
+		srv, kdc string
+		sr, kr   bool
+	}
+	var jobs []job
+	for _, base := range []string{"win2k", "ms", "trust"} {
+		for _, alg := range pacfmt.SigTypes {
+			for _, sl := range [][2]string{{"5a", ""}, {"", "5a"}, {"0102030405", "a1a2a3a4a5a6"}, {"000000000000", ""}, {"", "0000"}, {"ffffffffffffffff", "ff"}} {
+				for _, rodc := range [][2]bool{{false, false}, {true, true}, {true, false}, {false, true}} {
+					jobs = append(jobs, job{base, alg, sl[0], sl[1], rodc[0], rodc[1]})
+				}
+			}
+		}
+	}
+	mk := func(base []Buf, alg, kalg int32, sk, kk string, srv, kdc string, sr, kr bool) Case {
+		c := Case{Kind: "slack", SrvAlg: alg, KDCAlg: kalg, SrvKey: sk, KDCKey: kk, T: Tamper{Kind: "none"}}
+		for _, bf := range base {
+			switch bf.Src {
+			case "sig:server":
+				bf.Slack = srv
+				if sr {
+					bf.RODC = &id
+				}
+			case "sig:kdc":
+				bf.Slack = kdc
+				if kr {
+					bf.RODC = &id
+				}
+			}
+			c.Bufs = append(c.Bufs, bf)
+		}
+		return c
+	}
+	evid.Parallel(len(jobs), workers(), func(ji int) {
+		j := jobs[ji]
+		kalg := pacfmt.SigTypes[(ji/4)%len(pacfmt.SigTypes)]
+		sk, kk := seededKeys(r.Seed(), fmt.Sprintf("c19/slack/%s/%d", j.base, j.alg), j.alg, kalg)
+		c := mk(enumBases[j.base], j.alg, kalg, sk, kk, j.srv, j.kdc, j.sr, j.kr)
+		v, outcome := evalSlack(c)
+		b, _ := build(c)
+		r.Label("slack-base:" + outcome)
+		record("slack", c, v, outcome, b, nil)
+	})
+	r.Rapid("slack", r.N(300, 3000), func(t *rapid.T) {
+		c := genValid(t, "slack", true)
+		c.Bufs = append([]Buf{}, c.Bufs...)
+		n := 0
+		for i := range c.Bufs {
+			if c.Bufs[i].Src == "sig:server" || c.Bufs[i].Src == "sig:kdc" {
+				if k := rapid.IntRange(0, 8).Draw(t, "slack-octets"); k > 0 {
+					c.Bufs[i].Slack = hex.EncodeToString(rapid.SliceOfN(rapid.Byte(), k, k).Draw(t, "slack"))
+					n++
+				}
+			}
+		}
+		if n == 0 {
+			r.Count("", "generator-discard")
+			return
+		}
+		v, outcome := evalSlack(c)
+		b, _ := build(c)
+		r.Label("slack-base:" + outcome)
+		record("slack", c, v, outcome, b, t)
+	})
 }
 
 func utf16Enum(r *evid.Run, run runFn) {
